@@ -23,10 +23,9 @@ Fixpoint results_ok (res : list (rres * nat)) (next : nat) (failed : bool) : boo
   | (RBlockedR, _) :: r => results_ok r next failed
   end.
 
-(* ... and while nothing goes wrong on the connection (no cut, no end of stream, no context ending) and every
-   frame fits the read limit, no receive fails, however much came before on the same connection *)
-Definition fault_free (plan : list rstep) : bool :=
-  forallb (fun s => match s with RChunk _ | RStall => true | _ => false end) plan.
+(* ... and as long as the connection delivers the stream (no cut, end of stream or context ending before all of it
+   has arrived) and every frame fits the read limit, no receive of a frame fails, however much came before on the
+   same connection *)
 Definition no_error (res : list (rres * nat)) : bool :=
   forallb (fun r => match fst r with RError => false | _ => true end) res.
 
@@ -35,7 +34,9 @@ Definition check (c : case) : bool :=
   | CWrite frames _ wire oks => wire_ok frames oks wire
   | CRead limit sizes plan _ res _ =>
       results_ok res 0 false &&
-      (if fault_free plan && forallb (fun s => Nat.leb s limit) sizes then no_error res else true)
+      (if negb (early_cut plan (total sizes)) && forallb (fun s => Nat.leb s limit) sizes
+       then no_error (firstn (List.length sizes) res) else true)
+  | CAccepted _ _ _ _ _ => true
   end.
 Definition mismatches := Corr.Tcp.mismatches.
 Definition violations (cs : list case) : list nat := bad_indices check cs.
